@@ -200,11 +200,13 @@ def generate(seed, tier):
     nh = {'quick': 30, 'thorough': 400, 'search': 60}.get(tier, 30)
     for _ in range(nh):
         cases.append(gen_hash(rnd, 60))
+    # short random cases first: the runner shrinks the first failing case of a class
+    nr = {'quick': 1000, 'thorough': 12000, 'search': 2000}.get(tier, 1000)
+    rc = [gen_random(rnd, 100000 + i, W, 60 if i % 3 == 0 else 20) for i in range(nr)]
+    rc.sort(key=lambda c: len(c['lines']))
+    cases += rc
     L = {'quick': 5, 'thorough': 6, 'search': 4}.get(tier, 5)
     cases += gen_exhaustive(L, W)
-    nr = {'quick': 1000, 'thorough': 12000, 'search': 2000}.get(tier, 1000)
-    for i in range(nr):
-        cases.append(gen_random(rnd, 100000 + i, W, 60 if i % 3 == 0 else 20))
     return cases
 
 
